@@ -997,4 +997,46 @@ example :
     s.cq = 1 ∧ s.ovf = 2 :=
   ⟨⟨.default, 1, 1, _, by decide, by decide, rfl⟩, by decide⟩
 
+/-! ### Signals: an interrupted `io_uring_enter` -/
+
+/-- **An interrupted enter is a zero-timeout enter.** Whatever the poll call decided about
+blocking, a signal delivered during its `io_uring_enter` (`stepPI`: submissions consumed,
+overflow moved, the wait ended by `EINTR`, swallowed by `Shared::enter`) leaves exactly the
+state a call with a zero timeout reaches. Every theorem over runs therefore covers polls
+that are interrupted at their enter (`wake polli` in the correspondence is a zero-timeout
+poll in the model): in particular such a poll returns, and a wake-up consumed by its
+`set_polling(true)` is not waited for again. -/
+theorem C11_interrupted_enter_is_zero_timeout (s : St) (block : Bool) (n : Nat) :
+    stepPI { s with p := .e3 block n } = stepP { s with p := .e3 false n } := by
+  simp only [stepPI, stepP, consume, post, flush]
+  split <;> simp
+
+/-- A poller already blocked in the kernel that is interrupted goes on to
+`set_polling(false)` with whatever the kernel moved from the overflow list: the state a
+zero-timeout enter with nothing to submit reaches. -/
+theorem C11_interrupted_wait_returns (s : St) :
+    (stepPI { s with p := .waiting }).p = .c4 ∧
+    (stepPI { s with p := .waiting }).word = s.word ∧
+    (stepPI { s with p := .waiting }).avail = s.avail := by
+  refine ⟨rfl, rfl, ?_⟩
+  show s.cq + min s.ovf (s.cqLen - s.cq) + (s.ovf - min s.ovf (s.cqLen - s.cq)) = s.cq + s.ovf
+  omega
+
+/-- The behaviour the red-team change C11j introduced (retry the whole
+`set_polling(true)` / enter / `set_polling(false)` block after `EINTR`): the second
+`set_polling(true)` finds the wake-up flag already consumed, so the retried enter blocks —
+with a wake() that completed before the call. Shown on the model: a second pass through
+`c3` after the interrupted enter of an awoken poll reaches `waiting` with the obligation
+pending, where the real protocol (no second pass) has returned. -/
+theorem C11_retry_after_eintr_loses_wake :
+    (let s := runMv (initC .default 2 2) [.call 0, .w 0, .poll true, .p, .p]
+     s.p = .e3 false 0 ∧ s.oblig = true ∧ s.w = [.done]) ∧
+    (let s := stepPI (runMv (initC .default 2 2) [.call 0, .w 0, .poll true, .p, .p])
+     (runMv s [.p, .p]).p = .idle ∧ (runMv s [.p, .p]).returns = 1) ∧
+    (let s := stepPI (runMv (initC .default 2 2) [.call 0, .w 0, .poll true, .p, .p])
+     -- the retry: back to `c3` of a call without a timeout
+     let r := runMv { s with p := .c3 true } [.p, .p]
+     r.p = .waiting ∧ r.oblig = true ∧ r.avail = 0 ∧ r.sq = []) := by
+  decide
+
 end A10.Wake
